@@ -77,14 +77,14 @@ def run(rep: Report) -> None:
             rep.refuted("engines-equal", inst, rr.where, f"the {which} implementation raises: {rr.raised}",
                         key=f"eq|{prim}|{config}|raise")
             continue
-        d = PC.equal_terms(a.term, b.term, n1, nz_eq)
+        d = PC.equal_terms(a.term, b.term, PC.prim_env(prim, n1), nz_eq)
         rep.check(not d, "engines-equal", inst, f"{a.where} vs {b.where}",
                   "" if not d else f"at position {d[0][0]}: numpy = {d[0][1][:350]}  |  casadi = {d[0][2][:350]}",
                   key=f"eq|{prim}|{config}")
         # python-level branching on a value inside one engine: every branch must agree
         for r, other in ((a, b), (b, a)):
             for t, ra, asm, tr in r.alt_terms:
-                dd = [("-", "raises " + str(ra), "")] if (t is None) else PC.equal_terms(t, other.term, n1, nz_eq)
+                dd = [("-", "raises " + str(ra), "")] if (t is None) else PC.equal_terms(t, other.term, PC.prim_env(prim, n1), nz_eq)
                 cond = "; ".join(E.fmt(x, 60) for x in asm)
                 rep.check(not dd, "engines-equal", f"{inst} on the {r.impl} branch where [{cond}] is {tr}", r.where,
                           "" if not dd else f"{r.impl} branches in python on a value; on this branch it computes "
@@ -92,7 +92,7 @@ def run(rep: Report) -> None:
         # definedness on the admissible domain (both)
         for r in (a, b):
             nz = PC.prim_normalizer(True)
-            env = E.Env({"K": n1})
+            env = E.Env(PC.prim_env(prim, n1))
             probs = []
             try:
                 for pos in E.positions(E.shape(r.term, env), env):
